@@ -67,7 +67,13 @@ Assign(s, j) ==
              IN s[n][((j \div Prod(s, Later(ns, q))) % Len(s[n])) + 1]       \* sorted names, rightmost fastest
         ELSE s[n][(j % Len(s[n])) + 1]]                                      \* aligned; broadcast cycles
 
+\* "+" is NOT commutative on strings: str(int(t)) + str(int(u)) concatenates decimal numerals
+\* (the element turns the numeral back into a number); values are small non-negative integers here
+Digits(y) == IF y < 10 THEN 1 ELSE IF y < 100 THEN 2 ELSE IF y < 1000 THEN 3 ELSE 4
+Concat(x, y) == x * Pow10(Digits(y)) + y
 EvalExpr(e, asg) == CASE e = "t" -> asg["t"]
+                      [] e = "cat" -> Concat(asg["t"], asg["u"])
+                      [] e = "tac" -> Concat(asg["u"], asg["t"])
                       [] e = "2*t" -> 2 * asg["t"]
                       [] e = "t+u" -> asg["t"] + asg["u"]
                       [] e = "t*u" -> asg["t"] * asg["u"]
